@@ -80,4 +80,9 @@ impl ArenaAllocator for Bump {
     }
 
     fn finish(&mut self) {}
+
+    #[cfg(feature = "verif_hooks")]
+    fn verif_quarantine(&mut self) {
+        std::mem::forget(std::mem::take(self));
+    }
 }
